@@ -528,7 +528,9 @@ func (s *SourceControl) WriteComment(comment *string, reply *bool) error {
 			commentFilename := path.Join(filepath.Dir(ws.FilenamePattern), "comment.txt")
 			fp, err := os.Create(commentFilename)
 			if err != nil {
+				// Exactly one reply per request: a second send would block the core loop forever.
 				s.queuedResults <- err
+				return
 			}
 			defer fp.Close()
 			fp.WriteString(*comment)
